@@ -127,6 +127,73 @@ def proves_fresh(ex, pc, at, alive):
     return s.check() == z3.unsat
 
 
+_frame_memo = {}
+
+
+def _proves_in_unit_frame(ex, pc, name, at, o=None):
+    """if the unit's contract restricts writes of heap `name` to objects satisfying predicates P_i(o) (evaluated in the entry
+    state) and the path condition proves Or_i P_i(at), return [P_i(o)] (for bound variable o) -- else None"""
+    um = ex.unit_mods if getattr(ex, "unit_mods", None) else None
+    if um is None:
+        return None
+    mods, ovar = um
+    preds = mods.get(name[4:] if name.startswith("has$") else name)
+    if not preds:
+        return None
+    key = (name, at.get_id(), len(pc))
+    if key not in _frame_memo:
+        from . import verify
+        goal = z3.Or([z3.substitute(p, (ovar, at)) for p in preds])
+        s = smt.new_solver(3000)
+        for a in verify.relevant_axioms(pc, goal):
+            s.add(a)
+        for a in pc:
+            s.add(a)
+        s.add(z3.Not(goal))
+        _frame_memo[key] = (s.check() == z3.unsat)
+    if not _frame_memo[key]:
+        return None
+    if o is None:
+        return True
+    return [z3.substitute(p, (ovar, o)) for p in preds]
+
+
+def _unit_mods(ex, st):
+    if getattr(ex, "unit_mods", None) is None and getattr(ex, "unit_mods_src", None) is not None:
+        from . import verify
+        entry_heap, env, modifies = ex.unit_mods_src
+        mods, star, ovar = calls.parse_modifies(ex, verify._mk_state(entry_heap, st), env, modifies)
+        ex.unit_mods = (mods, ovar) if not star else False
+        ex.unit_mods_src = None
+    return ex.unit_mods or None
+
+
+def _proves_pred_in_unit_frame(ex, pc, name, p, ovar):
+    """does the path condition prove  forall o: p(o) ==> (some predicate of the unit's modifies clause for `name`)(o) ?"""
+    um = ex.unit_mods if getattr(ex, "unit_mods", None) else None
+    if um is None:
+        return False
+    mods, uov = um
+    preds = mods.get(name[4:] if name.startswith("has$") else name)
+    if not preds:
+        return False
+    key = ("pred", name, p.get_id(), len(pc))
+    if key not in _frame_memo:
+        from . import verify
+        c = z3.Int(f"fc!{next(_uid)}")
+        hyp = z3.substitute(p, (ovar, c))
+        goal = z3.Or([z3.substitute(q, (uov, c)) for q in preds])
+        s = smt.new_solver(3000)
+        for a in verify.relevant_axioms(list(pc) + [hyp], goal):
+            s.add(a)
+        for a in pc:
+            s.add(a)
+        s.add(hyp)
+        s.add(z3.Not(goal))
+        _frame_memo[key] = (s.check() == z3.unsat)
+    return _frame_memo[key]
+
+
 def by_names(log):
     return {e[0] for e in log}
 
@@ -136,6 +203,7 @@ def refine_frame(ex, st, pre_heap, log, uid0, loop_elem=None):
     A logged write location counts as loop-invariant when its term mentions no constant created
     since the havoc (serial >= uid0): it then depends only on state the loop does not change."""
     from .symexec import role_of, owner_of
+    _unit_mods(ex, st)
     alive_pre = pre_heap.get("$alive")
     summary = {}
     ex.last_frame_summary = summary
@@ -189,6 +257,10 @@ def refine_frame(ex, st, pre_heap, log, uid0, loop_elem=None):
                     elif p.get_id() in ex.role_alt:
                         # the container written varies with the iteration: fall back on "some container of that kind"
                         conds.append(z3.substitute(ex.role_alt[p.get_id()], (ovar, o)))
+                    elif pc is not None and _proves_pred_in_unit_frame(ex, pc, name, p, ovar):
+                        # a callee's frame that varies with the iteration but always stays inside the unit's own frame for this field
+                        um, uov = ex.unit_mods
+                        conds.extend(z3.substitute(q, (uov, o)) for q in um.get(name[4:] if name.startswith("has$") else name))
                     else:
                         ok = False
                         break
@@ -211,6 +283,10 @@ def refine_frame(ex, st, pre_heap, log, uid0, loop_elem=None):
                 conds.append(z3.Not(alive_pre[o]))      # written object was allocated during the loop
             elif pc is not None and ex.entry_alive is not None and proves_fresh(ex, pc, at, ex.entry_alive):
                 conds.append(z3.Not(ex.entry_alive[o]))
+            elif pc is not None and _proves_in_unit_frame(ex, pc, name, at) is not None:
+                # the written object provably belongs to the set the unit's own `modifies` allows for this field:
+                # the loop may have written any member of that set, nothing else
+                conds.extend(_proves_in_unit_frame(ex, pc, name, at, o))
             else:
                 ok = False
                 break
@@ -298,6 +374,17 @@ def assume_invs(ex, st, invs, env_extra):
     for lab, text in invs:
         g = calls.spec_eval(ex, st, env, text, old=ex.entry_old)
         st.assume(g)
+    # opt-in (contract option loop_assumes_inv): the structural invariants the unit assumes at its entry and at its internal
+    # call sites (INV(...) requires) are also assumed at the head of its loops -- a loop head is an internal boundary of the
+    # same kind; listed in the evidence like the call-site assumptions
+    c = ex.contract_stack[0] if ex.contract_stack else None
+    if c is not None and getattr(c, "loop_assumes_inv", False) and not ex.call_stack:
+        e2 = dict(ex.entry_env)
+        e2.update(env)
+        for lab, text in c.requires:
+            if lab.startswith("inv:"):
+                st.assume(calls.spec_eval(ex, st, e2, text, old=ex.entry_old))
+                ex.assumed_used.add(f"invariant {lab[4:]} is assumed at the loop heads of {c.target}")
 
 
 def exec_for(ex, stmt, st):
